@@ -212,7 +212,7 @@ BIG_SPECS = [
 ]
 
 _CHILD = textwrap.dedent('''
-    import json, resource, sys, time
+    import json, resource, sys, time, tracemalloc
     resource.setrlimit(resource.RLIMIT_AS, (int(sys.argv[2]), int(sys.argv[2])))
     from semantiva.execution.run_space import expand_run_space
     from semantiva.configurations.schema import RunSpaceV1Config, RunBlock, RunSource
@@ -222,32 +222,51 @@ _CHILD = textwrap.dedent('''
         RunBlock(mode=b["mode"], context=b.get("context", {}),
                  source=None if b.get("source") is None else RunSource(**b["source"])) for b in spec["blocks"]])
     t0 = time.time()
+    tracemalloc.start()
+    def peak():
+        return tracemalloc.get_traced_memory()[1]
     try:
         runs, meta = expand_run_space(cfg, cwd=sys.argv[3])
-        print(json.dumps({"outcome": "returned", "n": len(runs), "s": time.time() - t0}))
+        print(json.dumps({"outcome": "returned", "n": len(runs), "s": time.time() - t0, "peak": peak()}))
     except RunSpaceMaxRunsExceededError as exc:
-        print(json.dumps({"outcome": "maxRuns", "actual": exc.actual_runs, "s": time.time() - t0}))
+        print(json.dumps({"outcome": "maxRuns", "actual": exc.actual_runs, "s": time.time() - t0, "peak": peak()}))
     except MemoryError:
         print(json.dumps({"outcome": "MemoryError", "s": time.time() - t0}))
     except Exception as exc:
-        print(json.dumps({"outcome": type(exc).__name__, "msg": str(exc)[:200], "s": time.time() - t0}))
+        print(json.dumps({"outcome": type(exc).__name__, "msg": str(exc)[:200], "s": time.time() - t0, "peak": peak()}))
 ''')
+
+SRC_LEN = 500          # big.json: two columns s1, s2 of this length
+
+
+def block_size(b):
+    # Arithmetic count of one (valid) block of a cap spec, independent of the code; None = mismatch inside the block.
+    lens = [len(v) for v in b.get("context", {}).values()]
+    src = b.get("source")
+    if b["mode"] == "by_position":
+        sizes = []
+        if lens:
+            if len(set(lens)) != 1:
+                return None
+            sizes.append(lens[0])
+        if src:
+            sizes.append(SRC_LEN if src.get("mode", "by_position") == "by_position" else SRC_LEN * SRC_LEN)
+        if len(set(sizes)) > 1:
+            return None
+        return sizes[0] if sizes else 0
+    n = 1
+    for l in lens:
+        n *= l
+    if src:
+        n *= SRC_LEN if src.get("mode", "by_position") == "by_position" else SRC_LEN * SRC_LEN
+    return n
 
 
 def planned_total(spec):
-    """Arithmetic count of a (valid) BIG spec, independent of the code."""
-    sizes = []
-    for b in spec["blocks"]:
-        lens = [len(v) for v in b.get("context", {}).values()]
-        if b["mode"] == "by_position":
-            n = lens[0] if lens else 0
-        else:
-            n = 1
-            for l in lens:
-                n *= l
-        if b.get("source"):
-            n *= 500 * 500 if b["mode"] == "combinatorial" else 1
-        sizes.append(n)
+    # Arithmetic count of a cap spec: an int, or "config" when the documented rules reject it for a size mismatch.
+    sizes = [block_size(b) for b in spec["blocks"]]
+    if any(s is None for s in sizes):
+        return "config"
     if not sizes:
         return 1
     if spec["combine"] == "combinatorial":
@@ -255,39 +274,136 @@ def planned_total(spec):
         for s in sizes:
             t *= s
         return t
-    return sizes[0]
+    return sizes[0] if len(set(sizes)) == 1 else "config"
 
 
-def promptness(rep, stats, tier):
+def input_values(spec):
+    return sum(len(v) for b in spec["blocks"] for v in b.get("context", {}).values()) + 2 * SRC_LEN * sum(1 for b in spec["blocks"] if b.get("source"))
+
+
+def gen_big_block(rnd, shape, names, size_class):
+    # One block of a cap spec. shape: A product of context lists, B aligned long lists, C context x source product, D aligned with source.
+    if shape == "A":
+        k = rnd.randrange(2, 7) if size_class == "huge" else rnd.randrange(2, 4)
+        v = rnd.choice([60, 100, 300]) if size_class == "huge" else {2: rnd.choice([200, 300]), 3: rnd.choice([40, 50])}[k]
+        if size_class == "huge" and k < 5:
+            v = 3000 if k <= 3 else 400
+        return {"mode": "combinatorial", "context": {names.pop(): list(range(v)) for _ in range(k)}}
+    if shape == "B":
+        k = rnd.randrange(1, 4)
+        n = rnd.choice([30000, 50000])
+        return {"mode": "by_position", "context": {names.pop(): list(range(n)) for _ in range(k)}}
+    if shape == "C":
+        return {"mode": "combinatorial", "context": {names.pop(): list(range(rnd.choice([40, 500])))},
+                "source": {"format": "json", "path": "big.json", "mode": rnd.choice(MODES), "rename": {"s1": names.pop(), "s2": names.pop()}}}
+    return {"mode": "by_position", "context": {names.pop(): list(range(SRC_LEN * SRC_LEN))},
+            "source": {"format": "json", "path": "big.json", "mode": "combinatorial", "rename": {"s1": names.pop(), "s2": names.pop()}}}
+
+
+def gen_big_specs(rnd, n):
+    out = []
+    for i in range(n):
+        names = [f"k{j}" for j in range(40)]
+        combine = MODES[i % 2]
+        nb = rnd.randrange(1, 4)
+        size_class = "huge" if rnd.random() < 0.5 else "moderate"
+        shape = rnd.choice("AAABCD") if size_class == "moderate" else rnd.choice("AAAC")
+        first = gen_big_block(rnd, shape, names, size_class)
+        blocks = [first]
+        for _ in range(nb - 1):
+            if combine == "by_position" and rnd.random() < 0.8:
+                # same planned size under fresh key names (a deep copy in shape, not in names)
+                b = json.loads(json.dumps(first))
+                b["context"] = {names.pop(): v for v in b["context"].values()}
+                if b.get("source"):
+                    b["source"]["rename"] = {"s1": names.pop(), "s2": names.pop()}
+                blocks.append(b)
+            else:
+                blocks.append(gen_big_block(rnd, rnd.choice("AAC") if size_class == "huge" else rnd.choice("ABC"), names, size_class))
+        rnd.shuffle(blocks)
+        spec = {"combine": combine, "blocks": blocks, "max_runs": 0}
+        want = planned_total(spec)
+        if isinstance(want, int):
+            spec["max_runs"] = rnd.choice([0, 1, 10, 1000, max(0, want - 1), max(0, want // 2)]) if want > 0 else 0
+            if want == 0:
+                continue
+        else:
+            spec["max_runs"] = rnd.choice([10, 1000])
+        out.append((f"gen{i}:{combine}:{size_class}:{shape}x{nb}", spec))
+    return out
+
+
+def one_promptness(d, idx, name, spec, limit_bytes, limit_s):
+    sp = d / f"spec{idx}.json"
+    sp.write_text(json.dumps(spec))
+    t0 = time.time()
+    out = None
+    for budget in (limit_s, 6 * limit_s):          # a loaded machine gets a second, longer chance before a verdict
+        try:
+            p = subprocess.run([sys.executable, str(d / "child.py"), str(sp), str(limit_bytes), str(d)],
+                               capture_output=True, text=True, timeout=budget, cwd=str(core.REPO))
+            lines = [l for l in p.stdout.splitlines() if l.startswith("{")]
+            out = json.loads(lines[-1]) if lines else {"outcome": "crashed", "rc": p.returncode, "stderr": p.stderr[-300:]}
+            break
+        except subprocess.TimeoutExpired:
+            out = {"outcome": "timeout", "s": budget}
+    out["wall_s"] = round(time.time() - t0, 2)
+    sp.unlink()
+    return out
+
+
+def promptness(rep, stats, tier, rnd):
+    from concurrent.futures import ThreadPoolExecutor
     limit_bytes = 1536 * 1024 * 1024
     limit_s = 20.0
+    specs = list(BIG_SPECS) + gen_big_specs(rnd, 24 if tier == "quick" else 160)
+    stats["promptness_cases"] = len(specs)
+    shapes = {}
     with rt.tempdir() as d:
-        (d / "big.json").write_text(json.dumps({"s1": list(range(500)), "s2": list(range(500))}))
+        (d / "big.json").write_text(json.dumps({"s1": list(range(SRC_LEN)), "s2": list(range(SRC_LEN))}))
         (d / "child.py").write_text(_CHILD)
-        for name, spec in BIG_SPECS:
-            (d / "spec.json").write_text(json.dumps(spec))
-            want = planned_total(spec)
-            t0 = time.time()
-            out = None
-            for budget in (limit_s, 6 * limit_s):          # a loaded machine gets a second, longer chance before a verdict
-                try:
-                    p = subprocess.run([sys.executable, str(d / "child.py"), str(d / "spec.json"), str(limit_bytes), str(d)],
-                                       capture_output=True, text=True, timeout=budget, cwd=str(core.REPO))
-                    lines = [l for l in p.stdout.splitlines() if l.startswith("{")]
-                    out = json.loads(lines[-1]) if lines else {"outcome": "crashed", "rc": p.returncode, "stderr": p.stderr[-300:]}
-                    break
-                except subprocess.TimeoutExpired:
-                    out = {"outcome": "timeout", "s": budget}
-            out["wall_s"] = round(time.time() - t0, 2)
-            stats["promptness"][name] = dict(out, planned_total=want, max_runs=spec["max_runs"])
+        with ThreadPoolExecutor(max_workers=6) as ex:
+            outs = list(ex.map(lambda t: one_promptness(d, t[0], t[1][0], t[1][1], limit_bytes, limit_s), enumerate(specs)))
+    for (name, spec), out in zip(specs, outs):
+        want = planned_total(spec)
+        kind = name.split(":", 1)[1] if name.startswith("gen") else name
+        public = spec if len(json.dumps(spec)) < 3000 else {"combine": spec["combine"], "max_runs": spec["max_runs"], "blocks": [
+            {"mode": b["mode"], "context_lengths": {k: len(v) for k, v in b.get("context", {}).items()}, "source": b.get("source")} for b in spec["blocks"]]}
+        rec = dict(out, planned_total=want, max_runs=spec["max_runs"])
+        if not name.startswith("gen"):
+            stats["promptness"][name] = rec
+        if want == "config":
+            verdict = "mismatch"
+            if out["outcome"] != "ConfigurationError" and "Configuration" not in out["outcome"]:
+                rep.add_violation(f"mismatch-not-rejected:{kind}", f"blocks of unequal planned sizes are not rejected with a configuration error within "
+                                  f"{limit_s:.0f}s / {limit_bytes >> 20} MiB: outcome {out['outcome']}", {"spec_name": name, "spec": public, "observed": out})
+        elif want > spec["max_runs"]:
+            verdict = "over-cap"
+            # what a first pass over the *input* may allocate (copies of the given lists), never the planned runs
+            bound = 16 * input_values(spec) + (1 << 20)
             if out["outcome"] != "maxRuns":
-                rep.add_violation(f"cap-not-enforced-promptly:{name}",
+                rep.add_violation(f"cap-not-enforced-promptly:{kind}",
                                   f"a run space planning {want:,} runs against max_runs={spec['max_runs']} is not rejected with the max-runs error "
                                   f"within {limit_s:.0f}s / {limit_bytes >> 20} MiB: outcome {out['outcome']}",
-                                  {"spec_name": name, "spec": spec if len(json.dumps(spec)) < 2000 else "see BIG_SPECS in props/c08.py", "observed": out})
+                                  {"spec_name": name, "spec": public, "observed": out})
             elif out.get("actual") != want:
-                rep.add_violation(f"cap-reports-wrong-count:{name}", f"max-runs error reports {out.get('actual')} runs, planned total is {want}",
-                                  {"spec_name": name, "observed": out})
+                rep.add_violation(f"cap-reports-wrong-count:{kind}", f"max-runs error reports {out.get('actual')} runs, planned total is {want}",
+                                  {"spec_name": name, "spec": public, "observed": out})
+            elif want >= 20000 and out.get("peak", 0) > bound:
+                rep.add_violation(f"cap-enforced-after-materialising:{kind}",
+                                  f"a run space planning {want:,} runs against max_runs={spec['max_runs']} is rejected with the max-runs error only after "
+                                  f"{out['peak']:,} bytes were allocated (the inputs hold {input_values(spec):,} values; bound {bound:,} bytes): "
+                                  "the expansion was materialised before the cap was applied",
+                                  {"spec_name": name, "spec": public, "observed": out, "bound_bytes": bound})
+        else:
+            verdict = "within-cap"
+            if out["outcome"] != "returned" or out.get("n") != want:
+                rep.add_violation(f"within-cap-not-expanded:{kind}", f"a run space planning {want:,} runs within max_runs={spec['max_runs']} gives {out}",
+                                  {"spec_name": name, "spec": public, "observed": out})
+        key = f"{spec['combine']}/{verdict}"
+        shapes[key] = shapes.get(key, 0) + 1
+    stats["promptness_shapes"] = shapes
+    stats["promptness_peak_max"] = max((o.get("peak", 0) for o in outs), default=0)
 
 
 def run(tier: str) -> int:
@@ -408,7 +524,7 @@ def run(tier: str) -> int:
                                   {"specs": pub, "door": door, "real": real2})
         if disagreements:
             rep.add_broken(f"correspondence C08: error class differs on {len(disagreements)} specs, first {json.dumps(disagreements[0])[:500]}")
-    promptness(rep, stats, tier)
+    promptness(rep, stats, tier, rnd)
     rep.coverage.update({
         "evaluations": stats["cases"] + len(BIG_SPECS),
         "distinct_nontrivial": stats["nontrivial_ok"] + sum(v for k, v in stats["model_outcome"].items() if k != "ok"),
